@@ -80,21 +80,35 @@ def stage_specs(scratch):
 # --------------------------------------------------------------------------- phases
 
 def phase_mc(prop, tier, specdir, scratch):
-    """Exhaustive model checking of the specification (design level)."""
-    total_states = total_trans = 0
-    runs = []
-    for i, mc in enumerate(prop.get("mc", [])):
-        if tier not in mc.get("tiers", ["quick", "thorough"]):
-            continue
+    """Exhaustive model checking of the specification (design level); the runs go in parallel."""
+    from concurrent.futures import ThreadPoolExecutor
+    todo = [(i, mc) for i, mc in enumerate(prop.get("mc", [])) if tier in mc.get("tiers", ["quick", "thorough"])]
+    if not todo:
+        return 0, 0, []
+    nmain = sum(1 for _, mc in todo if not mc.get("expect_violation")) or 1
+    side = sum(1 for _, mc in todo if mc.get("expect_violation"))
+    main_workers = max(2, (NCPU - min(side, NCPU // 2)) // nmain)
+
+    def one(item):
+        i, mc = item
         cfg = mc["cfg"][tier] if isinstance(mc["cfg"], dict) else mc["cfg"]
         to = mc.get("timeout", {}).get(tier, 900) if isinstance(mc.get("timeout"), dict) else mc.get("timeout", 900)
-        r = run_tlc(specdir, mc["module"], cfg, mc.get("workers", NCPU), scratch, f"mc{i}", to,
-                    xmx=mc.get("xmx", "6g"), extra=mc.get("extra", ()))
+        ev = mc.get("expect_violation")
+        workers = mc.get("workers", 2 if ev else main_workers)
+        r = run_tlc(specdir, mc["module"], cfg, workers, scratch, f"mc{i}", to,
+                    xmx=mc.get("xmx", "3g" if ev else "6g"), extra=mc.get("extra", ()))
+        return i, mc, cfg, r
+
+    with ThreadPoolExecutor(max_workers=len(todo)) as ex:
+        results = list(ex.map(one, todo))
+    total_states = total_trans = 0
+    runs = []
+    for i, mc, cfg, r in results:
         expect_violation = mc.get("expect_violation")
         if expect_violation:
-            # informational as-built run: must reproduce the known design-level counterexample
+            # a mutated / as-built variant of the model: it must still produce its counterexample (non-vacuity)
             if not any(expect_violation in v for v in r["violated"]):
-                raise Infra(f"as-built model {mc['module']}/{cfg} no longer shows '{expect_violation}' (see {r['log']})")
+                raise Infra(f"mutated model {mc['module']}/{cfg} no longer violates '{expect_violation}' (see {r['log']})")
         else:
             if not r["ok"]:
                 raise Infra(f"model checking of {mc['module']}/{cfg} did not complete cleanly: "
@@ -104,7 +118,7 @@ def phase_mc(prop, tier, specdir, scratch):
         runs.append(dict(module=mc["module"], cfg=cfg, distinct=r["distinct"], generated=r["generated"],
                          wall_s=r["wall_s"], expect_violation=expect_violation or ""))
         log(f"MC {mc['module']}/{cfg}: {r['distinct']} distinct / {r['generated']} generated in {r['wall_s']}s"
-            + (f" (as-built, violates {expect_violation} as expected)" if expect_violation else ""))
+            + (f" (mutated model, violates {expect_violation} as expected)" if expect_violation else ""))
     return total_states, total_trans, runs
 
 
@@ -119,6 +133,8 @@ def phase_gen(prop, tier, specdir, scratch):
     total = 0
     with open(out, "w") as allf:
         for i, g in enumerate(gens):
+            if tier not in g.get("tiers", ["quick", "thorough"]):
+                continue
             part = os.path.join(scratch, f"scripts{i}.ndjson")
             cfg = g["cfg"][tier] if isinstance(g["cfg"], dict) else g["cfg"]
             r = run_tlc(specdir, g["module"], cfg, g.get("workers", 1), scratch, f"gen{i}", g.get("timeout", 900),
